@@ -10,10 +10,10 @@
     The bitmap is a list of 64-bit words (each < 2^64).  acquireBitmap
     (bitmap.go) returns at least ceil(n/64) words (n words when freshly
     allocated), all zero before nullIndex runs.  The bits at positions >= n
-    are NOT determined by the rows: the scalar and assembly kernels leave them
-    zero, nullIndexStruct (null.go:35) sets every bit of every word.  The
-    theorems therefore quantify over arbitrary bits beyond n and any number of
-    words >= ceil(n/64).
+    are not determined by the rows: the present kernels leave them zero (until
+    commit f2cbf09 nullIndexStruct set every bit of every word).  The theorems
+    do not depend on it: they quantify over arbitrary bits beyond n and any
+    number of words >= ceil(n/64).
 
     No proofs here (NullRunsProofs.v). *)
 From Coq Require Import List NArith Bool Arith.
